@@ -75,3 +75,20 @@ contract(F + "add_comments_includes_directives",
     }, types={"obj": "ref:Base?"})},
     serves=["C11", "C12", "C14"],
 )
+
+# match_cpp_directive itself: the protocol side of proto:match_cpp_directive proved (what it *decides* stays the
+# uninterpreted predicate accepts('cpp', view)).  Each Cpp_* class is a statement rule (G3 for statement rules is
+# Base.__new__@stmt, proved); the peeked item is given back before any rule is tried and on every exit without a node.
+contract("fparser.two.C99Preprocessor:match_cpp_directive",
+    types=dict(reader="FortranReaderBase"), returns="ref:Base?", modifies=READER,
+    calls={"reader.get_item": "proto:get_item", "reader.put_item": "proto:put_item",
+           "getattr(sys.modules[__name__], cls)": "proto:stmt_call@dynamic", "isinstance": "pure:bool"},
+    ensures={
+        "no_match_restores": "implies(result is None, view == old(view))",
+        "match_consumes_prefix": "implies(result is not None, old(view) == consumed(result) + view and len(consumed(result)) > 0)",
+        "result_is_new_node": "implies(result is not None, not was_allocated(result))",
+    },
+    raises={"*!StopIteration!NoMatchError": {}},
+    loops={0: dict(invariant={"nothing_taken_yet": "view == old(view)"}, types={"cls": "str", "obj": "ref:Base?"})},
+    serves=["C14", "C12"],
+    note="the peek (get_item / put_item) leaves the item stream as it was; the first Cpp_* rule that matches decides")
